@@ -276,24 +276,41 @@ void debug_printdec_double_prec(double a, int prec)
     if (a < 0)
         a = -a;
 
+    // 10^18 is the largest power of ten whose multiples of a fraction fit
+    // into uint64_t
+    if (prec > 18)
+        prec = 18;
+
     uint64_t n = (uint64_t)a;
-
-    debug_printdec_uint64(n);
-    debug_putchar('.');
-
     double o = a - n;
+    uint64_t lim = 1; // 10^prec
 
     for (int _iteration = 0; _iteration < prec; ++_iteration)
     {
         o *= 10;
-
-        if ((int)o == 0)
-            debug_putchar('0');
+        lim *= 10;
     }
 
-    o += 0.5;
+    // round the scaled fraction first: it may carry into the integer part
+    uint64_t frac = (uint64_t)(o + 0.5);
+    if (frac >= lim)
+    {
+        frac -= lim;
+        ++n;
+    }
 
-    debug_printdec_signed_long_long((long long)o);
+    debug_printdec_uint64(n);
+
+    if (prec > 0)
+    {
+        debug_putchar('.');
+
+        // leading zeros of the fraction
+        for (lim /= 10; lim > frac && lim > 1; lim /= 10)
+            debug_putchar('0');
+
+        debug_printdec_uint64(frac);
+    }
 }
 
 void debug_printhex_ptr(const void *v)
